@@ -109,6 +109,16 @@ CHECKS = {
              "an object the writer accepts.",
         note="Trusted: TLC, independent RawConfigParser/json editing of real dump text.",
         design="4 C07"),
+    "C16": dict(
+        technique="TLA+ specs ChunkedDigest.tla (read loop; recorded read/update traces validated by TLC) and Checksums.tla (path normalisation, [checksums] entry kinds, add_checksum state machine) as generators replayed on the real code",
+        text="(a) the real compute_checksum runs on files straddling multiples of the observed 1 MiB chunk for every fixed-length hashlib "
+             "algorithm: digest equals hashlib over the whole content and the recorded read()/update() sequence is validated by TLC as a "
+             "behaviour of ChunkedDigest (every byte fed once, in order); (b) every relative/absolute path of <= 4 components over "
+             "{x, y, ., .., //} through the real Checksums.add against real files; (c) every [checksums] section of <= 3 entries over 8 entry "
+             "kinds: each path maps to its own entry or the document is rejected, also after a write/read cycle; (d) every add_checksum "
+             "history of length <= 4/5 with NeverReplaced checked by TLC.",
+        note="Trusted: TLC, hashlib as the reference digest, open()/hashlib.new() observation wrappers.",
+        design="4 C16"),
 }
 
 
